@@ -4,9 +4,14 @@ import (
 	"bytes"
 	"context"
 	"fmt"
+	"go/ast"
+	"go/parser"
+	"go/printer"
+	"go/token"
 	"os"
 	"os/exec"
 	"path/filepath"
+	"strconv"
 	"strings"
 	"time"
 
@@ -106,8 +111,14 @@ func All(vs ...interface{}) string {
 	return strings.Join(parts, " | ")
 }
 
+// Steps is incremented by the instrumented copy of the program at every function entry and
+// loop iteration (the work the Go run actually did; see tv.instrument).
+var Steps uint64
+
 // Run runs one entry and prints its canonical result or its panic.
 func Run(name string, f func() string) {
+	Steps = 0
+	defer func() { fmt.Fprintf(os.Stdout, "%s STEPS %d\n", name, Steps) }()
 	defer func() {
 		if r := recover(); r != nil {
 			fmt.Fprintf(os.Stdout, "%s PANIC %v\n", name, strings.ReplaceAll(fmt.Sprint(r), "\n", " "))
@@ -150,7 +161,7 @@ func NewGoRunner() (*GoRunner, error) {
 // shim renders main() calling every entry and printing canonical results.
 func shim(entries []Entry) string {
 	var sb strings.Builder
-	sb.WriteString("package main\n\nimport \"gcase/zzcanon\"\n\nfunc main() {\n")
+	sb.WriteString("package main\n\nimport \"gcase/zzcanon\"\n\n// zzStep counts function entries and loop iterations (instrumented copy only).\nfunc zzStep() { zzcanon.Steps++ }\n\nfunc main() {\n")
 	for _, f := range entries {
 		n := f.NResults
 		var rs []string
@@ -173,6 +184,43 @@ func shim(entries []Entry) string {
 type GoResult struct {
 	Results  map[string]string // entry -> canonical rendering (only entries that returned normally)
 	Panicked map[string]string // entry -> panic message
+	Steps    map[string]uint64 // entry -> function entries + loop iterations executed by Go
+}
+
+// instrument returns src with a call of zzStep() (defined by the shim) at the start of every
+// function body, function literal and loop body. The copy is only what the Go runner compiles;
+// goose translates the original. The count bounds the work of the run from below in units the
+// GooseLang interpreter's fuel can be compared with (out-of-fuel is a violation only when Go's
+// own run was short).
+func instrument(src string) string {
+	fset := token.NewFileSet()
+	f, err := parser.ParseFile(fset, "prog.go", src, parser.ParseComments)
+	if err != nil {
+		return src
+	}
+	step := func() ast.Stmt {
+		return &ast.ExprStmt{X: &ast.CallExpr{Fun: ast.NewIdent("zzStep")}}
+	}
+	ast.Inspect(f, func(n ast.Node) bool {
+		switch n := n.(type) {
+		case *ast.FuncDecl:
+			if n.Body != nil {
+				n.Body.List = append([]ast.Stmt{step()}, n.Body.List...)
+			}
+		case *ast.FuncLit:
+			n.Body.List = append([]ast.Stmt{step()}, n.Body.List...)
+		case *ast.ForStmt:
+			n.Body.List = append([]ast.Stmt{step()}, n.Body.List...)
+		case *ast.RangeStmt:
+			n.Body.List = append([]ast.Stmt{step()}, n.Body.List...)
+		}
+		return true
+	})
+	var buf bytes.Buffer
+	if err := printer.Fprint(&buf, fset, f); err != nil {
+		return src
+	}
+	return buf.String()
 }
 
 // BuildError means the generated program did not compile (generator bug).
@@ -185,7 +233,7 @@ func (e *BuildError) Error() string { return "generated program does not compile
 func (r *GoRunner) Run(src string, entries []Entry) (*GoResult, error) {
 	r.n++
 	os.MkdirAll(filepath.Join(r.Dir, "zzcanon"), 0o755)
-	for name, content := range map[string]string{"prog.go": src, "zzcanon/canon.go": canonSrc, "zz_main.go": shim(entries)} {
+	for name, content := range map[string]string{"prog.go": instrument(src), "zzcanon/canon.go": canonSrc, "zz_main.go": shim(entries)} {
 		if err := os.WriteFile(filepath.Join(r.Dir, name), []byte(content), 0o644); err != nil {
 			return nil, err
 		}
@@ -213,9 +261,12 @@ func (r *GoRunner) Run(src string, entries []Entry) (*GoResult, error) {
 	if ctx2.Err() != nil {
 		return nil, fmt.Errorf("generated program timed out (generator bug: unbounded loop)")
 	}
-	res := &GoResult{Results: map[string]string{}, Panicked: map[string]string{}}
+	res := &GoResult{Results: map[string]string{}, Panicked: map[string]string{}, Steps: map[string]uint64{}}
 	for _, line := range strings.Split(so.String(), "\n") {
-		if i := strings.Index(line, " = "); i > 0 && strings.HasPrefix(line, "entry") {
+		if i := strings.Index(line, " STEPS "); i > 0 && strings.HasPrefix(line, "entry") {
+			n, _ := strconv.ParseUint(strings.TrimSpace(line[i+7:]), 10, 64)
+			res.Steps[line[:i]] = n
+		} else if i := strings.Index(line, " = "); i > 0 && strings.HasPrefix(line, "entry") {
 			res.Results[line[:i]] = line[i+3:]
 		} else if i := strings.Index(line, " PANIC "); i > 0 {
 			res.Panicked[line[:i]] = line[i+7:]
